@@ -10,7 +10,7 @@ import (
 )
 
 func init() {
-	registerRule("errflow", 38, "every error of the expansion/resolution machinery reaches the caller through one of the accepted idioms", ruleErrFlow)
+	registerRule("errflow", 52, "every error of the expansion/resolution machinery reaches the caller through one of the accepted idioms", ruleErrFlow)
 	registerRule("single-decision", 3, "ContinueOnError is consulted in exactly one function, whose contract is checked on its body", ruleSingleDecision)
 }
 
